@@ -8,8 +8,10 @@ VARIABLES queued,     \* bytes handed to send()/send_fast() while the worker was
           buf,        \* IOWorker.send_buf
           closed,     \* worker.closed
           closes,     \* number of close notifications
+          shutp,      \* shutdown(send) was requested: flush, then shut the sending direction down
+          shutwr,     \* number of SHUT_WR calls made on the socket (0 or 1 = done; after it the socket refuses data)
           nsent, last, hist
-svars == <<queued, accepted, buf, closed, closes, nsent>>
+svars == <<queued, accepted, buf, closed, closes, shutp, shutwr, nsent>>
 vars == <<svars, last, hist>>
 viewE == svars
 Msg(n) == [i \in 1..MsgLen |-> 10 * n + i]
@@ -17,20 +19,24 @@ Msg(n) == [i \in 1..MsgLen |-> 10 * n + i]
 \* close: on a closed worker that byte is only buffered, never written, and nothing is notified again
 Late == <<90>>
 Init == /\ queued = <<>> /\ accepted = <<>> /\ buf = <<>> /\ closed = FALSE /\ closes = 0 /\ nsent = 0
+        /\ shutp = FALSE /\ shutwr = 0
         /\ last = [a |-> "Init", args |-> [x |-> 0], exp |-> [x |-> 0]] /\ hist = <<>>
 Log(a, args) ==
   LET e == [a |-> a, args |-> args,
-            exp |-> [accepted |-> accepted', buf |-> buf', closed |-> closed', closes |-> closes']] IN
+            exp |-> [accepted |-> accepted', buf |-> buf', closed |-> closed', closes |-> closes',
+                     shutwr |-> shutwr']] IN
   /\ last' = e /\ hist' = IF KeepHist THEN Append(hist, e) ELSE hist
-Outs(n) == {[k |-> "full", n |-> n], [k |-> "eagain", n |-> 0], [k |-> "fatal", n |-> 0]}
-           \cup {[k |-> "part", n |-> j] : j \in {1, n - 1} \cap 1..(n - 1)}
+OutsOpen(n) == {[k |-> "full", n |-> n], [k |-> "eagain", n |-> 0], [k |-> "fatal", n |-> 0]}
+               \cup {[k |-> "part", n |-> j] : j \in {1, n - 1} \cap 1..(n - 1)}
+\* a socket whose sending direction has been shut down accepts nothing more (EPIPE)
+Outs(n) == IF shutwr > 0 THEN {[k |-> "fatal", n |-> 0]} ELSE OutsOpen(n)
 
 \* send(): fire and forget, data is appended to the send buffer
 Send ==
   /\ nsent < MaxMsgs /\ nsent' = nsent + 1
   /\ buf' = buf \o Msg(nsent + 1)
   /\ queued' = IF closed THEN queued ELSE queued \o Msg(nsent + 1)
-  /\ UNCHANGED <<accepted, closed, closes>>
+  /\ UNCHANGED <<accepted, closed, closes, shutp, shutwr>>
   /\ Log("Send", [n |-> nsent + 1])
 
 \* send_fast(): try the socket at once when nothing is buffered
@@ -50,31 +56,43 @@ SendFast(o) ==
        /\ buf' = buf \o data
        /\ queued' = IF closed THEN queued ELSE queued \o data
        /\ UNCHANGED <<accepted, closed, closes>>
+  /\ UNCHANGED <<shutp, shutwr>>
   /\ Log("SendFast", [n |-> nsent + 1, o |-> o])
 
 \* the I/O loop found the socket writable: _do_send
 DoSend(o) ==
   /\ ~closed /\ buf # <<>>
   /\ o \in Outs(Len(buf))
-  /\ CASE o.k = "full" -> accepted' = accepted \o buf /\ buf' = <<>> /\ UNCHANGED <<closed, closes>>
+  /\ CASE o.k = "full" -> /\ accepted' = accepted \o buf /\ buf' = <<>> /\ UNCHANGED <<closed, closes>>
+                          \* flush-then-shutdown: only once EVERYTHING queued has been accepted
+                          /\ shutwr' = IF shutp THEN shutwr + 1 ELSE shutwr
        [] o.k = "part" -> /\ accepted' = accepted \o SubSeq(buf, 1, o.n)
-                          /\ buf' = SubSeq(buf, o.n + 1, Len(buf)) /\ UNCHANGED <<closed, closes>>
-       [] o.k = "eagain" -> UNCHANGED <<accepted, buf, closed, closes>>
-       [] o.k = "fatal" -> closed' = TRUE /\ closes' = closes + 1 /\ buf' = buf \o Late /\ UNCHANGED accepted
-  /\ UNCHANGED <<queued, nsent>>
+                          /\ buf' = SubSeq(buf, o.n + 1, Len(buf)) /\ UNCHANGED <<closed, closes, shutwr>>
+       [] o.k = "eagain" -> UNCHANGED <<accepted, buf, closed, closes, shutwr>>
+       [] o.k = "fatal" -> closed' = TRUE /\ closes' = closes + 1 /\ buf' = buf \o Late /\ UNCHANGED <<accepted, shutwr>>
+  /\ UNCHANGED <<queued, nsent, shutp>>
   /\ Log("DoSend", [o |-> o])
+
+\* shutdown(): "flush what is queued, then shut the sending direction down" (the switch-side connection's close())
+Shutdown ==
+  /\ ~shutp /\ ~closed /\ shutp' = TRUE
+  /\ UNCHANGED <<queued, accepted, buf, closed, closes, shutwr, nsent>>
+  /\ Log("Shutdown", [x |-> 0])
 
 CloseAgain ==     \* close() on a closed worker is a no-op
   /\ closed /\ UNCHANGED svars /\ Log("CloseAgain", [x |-> 0])
 
-AllOuts == UNION {Outs(n) : n \in 1..(MaxMsgs * MsgLen)}
-Next == Send \/ (\E o \in AllOuts : SendFast(o)) \/ (\E o \in AllOuts : DoSend(o)) \/ CloseAgain
+AllOuts == UNION {OutsOpen(n) : n \in 1..(MaxMsgs * MsgLen)}
+Next == Send \/ (\E o \in AllOuts : SendFast(o)) \/ (\E o \in AllOuts : DoSend(o)) \/ CloseAgain \/ Shutdown
 Spec == Init /\ [][Next]_vars
 
 PrefixOK == IsPrefix(accepted, queued)
 Conserved == ~closed => queued = accepted \o buf
 DeadSilent == [][closed => accepted' = accepted]_vars
 ClosedOnce == closes <= 1 /\ (closed <=> closes = 1)
+\* the sending direction is shut down at most once, only on request, and never while queued bytes are still unwritten
+ShutCleanI == shutwr <= 1 /\ (shutwr > 0 => shutp)
+ShutCleanP == [][shutwr' # shutwr => (buf' = <<>> /\ accepted' = queued)]_vars
 Export == (Len(hist) = D) => PrintT(<<"H", ToJson(hist)>>)
 ExportT == PrintT(<<"T", ToJson(hist')>>)
 =============================================================================
